@@ -109,7 +109,8 @@ def run_edit(cfg, keys):
     is_bytes = cfg.get("bytes", False)
     if is_bytes:
         cap, txt = cap.encode(enc), txt.encode(enc)
-    e = urwid.Edit(cap, txt, multiline=cfg["multiline"], allow_tab=cfg["allow_tab"], wrap=cfg["wrap"], align=cfg["align"])
+    e = urwid.Edit(cap, txt, multiline=cfg["multiline"], allow_tab=cfg["allow_tab"], wrap=cfg["wrap"], align=cfg["align"],
+                   mask=cfg.get("mask") if not is_bytes else None)
     w = cfg["w"]
     caplen = len(cfg["caption"])
     sigs = []
@@ -265,7 +266,8 @@ def run(chk):
         cfg = {"caption": rng.choice(["", "? ", "cap ", "c\n", "字 " if wide else "x"]),
                "text": "".join(rng.choice(chars + "\n") for _ in range(rng.randint(0, 8))),
                "w": rng.randint(1 if not wide else 2, 8), "wrap": wrap, "align": rng.choice(["left", "center", "right"]),
-               "multiline": rng.random() < 0.7, "allow_tab": rng.random() < 0.3, "bytes": is_bytes, "enc": enc}
+               "multiline": rng.random() < 0.7, "allow_tab": rng.random() < 0.3, "bytes": is_bytes, "enc": enc,
+               "mask": "*" if (not is_bytes and rng.random() < 0.15) else None}     # hidden text: one mask character per character
         if not cfg["multiline"]:
             cfg["text"] = cfg["text"].replace("\n", " ")
         traces.append(run_edit(cfg, random_keys(rng, rng.randint(2, 10), cfg["w"], chars + ("é" if is_bytes else ""))))
@@ -281,7 +283,7 @@ def run(chk):
         for _ in range(rng.randint(1, 12)):
             r = rng.random()
             if r < 0.6:
-                keys.append(keyrec("char", ord(rng.choice("0123456789-.,aAfFxz +e"))))
+                keys.append(keyrec("char", ord(rng.choice("0123456789-.,aAfFxz +e\u00b2\u0663\uff15"))))
             else:
                 keys.append(keyrec(rng.choice(["left", "right", "home", "end", "backspace", "delete", "enter", "up"])))
         try:
@@ -295,6 +297,12 @@ def run(chk):
                        ("IntegerEdit", {"default": 10, "base": 10, "neg": False}), ("IntEdit", {"default": None})):
         for seq in itertools.product(nkeys, repeat=L):
             traces.append(run_numeric(kind, opts, list(seq)))
+    # digit-like characters outside the ASCII alphabet, alone and after a digit, on every numeric variant
+    for kind, opts in (("IntEdit", {"default": None}), ("IntEdit", {"default": 7}), ("IntegerEdit", {"default": None, "base": 10, "neg": True}),
+                       ("IntegerEdit", {"default": None, "base": 16, "neg": False}), ("FloatEdit", {"default": None, "neg": True, "sep": ".", "sig": True})):
+        for ch in "\u00b2\u0663\uff15\u2460\u096b\u00bd\uff21\u0391":
+            for pre in ([], [keyrec("char", ord("1"))], [keyrec("char", ord("1")), keyrec("home")]):
+                traces.append(run_numeric(kind, opts, pre + [keyrec("char", ord(ch)), keyrec("char", ord("2"))]))
     res = tlc.validate("EditTrace", traces, batch_events=6000, timeout=2400)
     chk.add_tv("TV_EditTrace", res)
     _handle(chk, traces, res)
